@@ -298,9 +298,9 @@ class Script:
 
         if len(data_bytes) < 0x4C:
             return bytes([len(data_bytes)]) + data_bytes
-        elif len(data_bytes) < 0xFF:
+        elif len(data_bytes) <= 0xFF:
             return b"\x4c" + bytes([len(data_bytes)]) + data_bytes
-        elif len(data_bytes) < 0xFFFF:
+        elif len(data_bytes) <= 0xFFFF:
             return b"\x4d" + struct.pack("<H", len(data_bytes)) + data_bytes
         elif len(data_bytes) < 0xFFFFFFFF:
             return b"\x4e" + struct.pack("<I", len(data_bytes)) + data_bytes
